@@ -18,9 +18,16 @@ pub struct Case {
 }
 
 fn strategy(_t: Tier) -> BoxedStrategy<Case> {
-    prop_oneof![3 => 0usize..=3, 4 => 4usize..=6, 3 => 7usize..=10]
-        .prop_flat_map(|n| arb_sb(n, 4).prop_map(move |e| Case { n, e }))
-        .boxed()
+    let trees = prop_oneof![3 => 0usize..=3, 4 => 4usize..=6, 3 => 7usize..=10].prop_flat_map(|n| arb_sb(n, 4).prop_map(move |e| Case { n, e }));
+    // large operands: minterm covers of dense functions of 9..=11 variables combined by & or |
+    // (up to ~10^6 cube products, nearly all empty) — the size regime the small trees never reach
+    let big = (9usize..=11, any::<bool>(), 0u8..4).prop_flat_map(|(n, and, form)| {
+        (crate::gen::arb_tt(n), crate::gen::arb_tt(n), any::<bool>(), any::<bool>()).prop_map(move |(a, b, va, vb)| {
+            let (x, y) = (Box::new(SB::FromLut(a, va)), Box::new(SB::FromLut(b, vb)));
+            Case { n, e: if and { SB::And(x, y, form) } else { SB::Or(x, y, form) } }
+        })
+    });
+    prop_oneof![400 => trees, 1 => big].boxed()
 }
 
 #[derive(Default)]
@@ -39,6 +46,8 @@ fn model_of(s: &Sop, n: usize) -> Tt {
 /// structural guarantees of an operation result
 fn check_structure(what: &str, r: &Sop, n: usize, f: &Tt) -> Result<(), Fail> {
     let ms: Vec<CubeM> = r.cubes().iter().map(CubeM::of).collect();
+    // every cube tabulated once over the n variables (semantic containment = bitset inclusion)
+    let tabs: Vec<Tt> = ms.iter().map(|c| tabulate(n, |m| c.value(m))).collect();
     for (i, c) in ms.iter().enumerate() {
         if *c == CubeM::Zero || r.cubes()[i].is_zero() {
             return Err(Fail { sig: "result:zero-cube".into(), msg: format!("{}: the result contains a contradictory cube ({})", what, show(r)) });
@@ -54,7 +63,7 @@ fn check_structure(what: &str, r: &Sop, n: usize, f: &Tt) -> Result<(), Fail> {
                 return Err(Fail { sig: "result:duplicate".into(), msg: format!("{}: the result contains the cube {} twice ({})", what, c.show(), show(r)) });
             }
             // semantic containment, decided on all assignments of the n variables
-            let implies = (0..(1u64 << n)).all(|m| !c.value(m) || d.value(m));
+            let implies = tabs[i].w.iter().zip(tabs[j].w.iter()).all(|(a, b)| a & !b == 0);
             if implies {
                 return Err(Fail { sig: "result:absorbed-cube".into(), msg: format!("{}: the result keeps the cube {} although it implies the cube {} ({})", what, c.show(), d.show(), show(r)) });
             }
@@ -127,7 +136,9 @@ fn eval(e: &SB, n: usize, info: &mut Info) -> Result<(Sop, Tt), Fail> {
             let is_and = matches!(e, SB::And(..));
             let (sa, fa) = eval(a, n, info)?;
             let (sb, fb) = eval(b, n, info)?;
-            if is_and && sa.num_cubes() * sb.num_cubes() > 1500 {
+            // products of two minterm covers are empty unless the minterms coincide: always affordable
+            let minterm_covers = matches!((&**a, &**b), (SB::FromLut(..), SB::FromLut(..)));
+            if is_and && !minterm_covers && sa.num_cubes() * sb.num_cubes() > 1500 {
                 info.skipped += 1;
                 return Ok((sa, fa));
             }
